@@ -7,7 +7,14 @@ SPEC = dict(
     tie_vo=['Proofs/LeafTie.vo', 'Proofs/ConstsTie_basic.vo', 'Proofs/ConstsTie_clamp.vo', 'Proofs/ConstsTie_stall.vo', 'Proofs/LeafTie2_calcTarget.vo', 'Proofs/LeafTie2_DirectCycle.vo', 'Proofs/LeafTie2_PidCycle.vo', 'Proofs/LeafTie2_applyPwmMapping.vo', 'Proofs/LeafTie2_HwMonGetMinPwm.vo', 'Proofs/LeafTie2_HwMonGetMaxPwm.vo', 'Proofs/LeafTie2_HwMonGetRpmAvg.vo', 'Proofs/LeafTie2_HwMonSetRpmAvg.vo', 'Proofs/LeafTie2_HwMonShouldNeverStop.vo'],
     drivers=[dict(name='ctrl', drv_mod='Drv.CtrlC01', drv_file='Drv/CtrlC01.v', shard=100,
                   extra_mods=[('Drv.CtrlC01Dev', 'Drv/CtrlC01Dev.v')],
-                  args={'quick': ['n=600'], 'thorough': ['n=4000']}, timeout={'quick': 900, 'thorough': 6000})],
+                  args={'quick': ['n=600'], 'thorough': ['n=4000']}, timeout={'quick': 900, 'thorough': 6000}),
+             # the minimum/maximum the envelope is measured against are the configured ones (else the measured ones) also after RPM
+             # curve data has been attached, and through the real start-up (Run: persistence -> attach -> regulate): the limits
+             # (C13) and limitsrun drivers, whose observers require the limits of the model and every request inside them
+             dict(name='limits', drv_mod='Drv.Limits', drv_file='Drv/Limits.v', shard=150,
+                  args={'quick': ['n=300'], 'thorough': ['n=8000']}, timeout={'quick': 600, 'thorough': 3000}),
+             dict(name='limitsrun', drv_mod='Drv.LimitsRun', drv_file='Drv/LimitsRun.v', shard=40,
+                  args={'quick': [], 'thorough': ['reps=8']}, timeout={'quick': 600, 'thorough': 3000})],
     rule='seeded histories of 1..40 control cycles with interleaved RPM polls, external interference and device faults on real '
          'HwMonFan/FileFan/CmdFan objects driven through the real UpdateFanSpeed/measureRpm; generators random/stall/const/ext/fault; '
          'PWM maps identity/quantiser/sparse/monotone-sparse/plateau; algorithms direct, rate-limited, PID (default and random gains); '
